@@ -81,7 +81,11 @@ def observe(spec, inputs):
             out["cpoly0"], out["cpoly2"] = _poly(m0.ge_polyhedron), _poly(m2.ge_polyhedron)
             items = sorted((str(v.id) for v in m0.flatten() if type(v) is n.puan.variable))
             sel = []
-            for prio in ([{}] + [{items[0]: 1}] if items else [{}]):
+            prios_ = ([{}] + [{items[0]: 1}] if items else [{}])
+            if not C.terminates(("r17", plspec.show(spec["model"])), lambda: [list(plspec.build(n, spec["model"], env).select(dict(q))) for q in prios_]):
+                prios_ = []          # the built-in solver does not return on this configurator: nothing to compare
+                out["builtin_solver"] = "did not return within the probe time; comparison skipped"
+            for prio in prios_:
                 a = [(None if x is None else sorted((repr(k), int(w)) for k, w in x.items()), z, c) for x, z, c in m0.select(dict(prio))]
                 b = [(None if x is None else sorted((repr(k), int(w)) for k, w in x.items()), z, c) for x, z, c in m2.select(dict(prio))]
                 sel.append([repr(a), repr(b)])
